@@ -31,35 +31,44 @@ from vlib.c07_lib import NAT, INT, REAL, CHAR, STRING, A, B, tset, tlist
 
 ID = 'C07'
 RULE = ("Well-typed closed terms over the signatures of the library theories logic, nat, int, real, set, list, function, "
-        "string, interval_arith (constants read from the loaded theory; overloaded constants only at declared instances; "
-        "one type per free name; legal identifiers that are neither constants nor grammar keywords). Generators: (a) the "
-        "operator ladder - ENUMERATED pairs outer-frame[position := inner-frame] over every table operator of "
-        "syntax/operator.py at several instances and arities (partial, binary, over-applied), binders ! ? ?! THE SOME % "
-        "and set comprehension (also with the binder name equal to a free name of the body), if, applications, literal "
+        "string, interval_arith (constants read from the loaded theory; overloaded constants only at instances that a "
+        "library item declares or a library statement uses; one type per free name; names are identifiers that are "
+        "neither constants nor grammar keywords). Generators: (a) the operator ladder over interval_arith (contains every "
+        "table operator) and string - ENUMERATED pairs outer-frame[position := inner-frame]: every table operator of "
+        "syntax/operator.py at several type instances and arities (partial, exact, over-applied), binders ! ? ?! THE SOME "
+        "% and set comprehension (also with the binder name equal to a free name of the body), if, applications, literal "
         "lists/sets, intervals, function update, numerals 0/1/2/3/10, negative and fractional numerals, chars/strings, bare "
-        "operator constants, in ASCII and Unicode; random deeper ladders with several compound arguments; (b) type-directed "
-        "random terms (vlib.gen) over the full signature of each theory, which leave many polymorphic constants undetermined "
-        "by context; (c) types, sequents, Inst/TyInst, ProofItems of every argument-signature kind "
-        "(export_proof_item/parse_proof_rule); (d) history: the case is printed after a drawn prefix (alpha-variants with "
-        "other binder names, the same term under other theories and settings, terms/sequents sharing the same Python "
-        "objects, unrelated terms) and its text must equal what a never-used process prints. Settings: unicode x highlight "
-        "x line_length in {None,20,40,80}; highlighted segments are concatenated; multi-line output is passed to "
-        "parse_term as a list (the JSON-file path) or joined with newlines (display_term). Oracle: parse in "
-        "fresh_context(vars/svars = those of the term) under the same theory; equal by holpy == AND by the independent "
-        "reference alpha-equivalence (vlib.ref) against the JSON original. Non-trivial: >= 2 table operators nested, or a "
-        "binder, or the text contains '::' (types: a constructor with arguments; sequents: >= 1 hypothesis; items: "
-        "arguments present); distinct by kind+theory+printed text.")
+        "operator constants (all pairs in ASCII, every third also in Unicode; thorough: all in both), plus random deeper "
+        "ladders with several compound arguments; (b) type-directed random terms (vlib.gen) over the FULL signature of "
+        "each theory, which leave many polymorphic constants undetermined by context; (c) every theorem/axiom statement of "
+        "the nine library theories (what real callers print and parse); (d) types, sequents, Inst/TyInst, ProofItems of "
+        "every argument-signature kind (export_proof_item/parse_proof_rule); (e) history: the case is printed after a "
+        "drawn prefix (alpha-variants with other binder names, the same term under other theories and settings, "
+        "terms/sequents sharing the same Python objects, unrelated terms); its text must equal what a never-used process "
+        "prints (sampled 1/16, plus every case whose bound names in the text are not variants of its own binder names, "
+        "up to 3 per shard). Settings: unicode x highlight x line_length in {None,20,40,80}; highlighted segments are "
+        "concatenated; multi-line output goes to parse_term as a list (the JSON-file path) or joined with newlines "
+        "(display_term). Oracle: parse in fresh_context(vars/svars = those of the term) under the same theory; the "
+        "result must be alpha-equal to the JSON original by the independent reference (vlib.ref) AND equal by holpy ==; "
+        "ASCII mode must print ASCII only and Unicode mode none of the ASCII operator spellings. Non-trivial: >= 2 table "
+        "operators nested, or a binder, or the text contains '::' (types: a constructor with arguments; sequents: >= 1 "
+        "hypothesis; items: arguments or a sequent present); distinct by kind+theory+printed text.")
 ASSUMPTIONS = [
     "Inst objects are compared on their term map only: tyinst / var_inst / abs_name_inst of kernel.term.Inst have no "
     "concrete syntax in export_proof_item and are generated empty",
-    "print_thm is exercised with line_length=None only in the main sweep (no caller in /repo sets line_length around "
-    "print_thm / export_proof_item); a small separate class prints sequents under a line length",
-    "a print or re-parse that raises is counted as a violation of the round trip (the property is a total statement about "
-    "in-domain objects), under its own failure class",
+    "print_thm is exercised with line_length=None in the main sweep (no caller in /repo sets line_length around "
+    "print_thm / export_proof_item); 1 sequent in 40 is printed under line_length=40 and reported under its own signature",
+    "a print or a re-parse that raises counts as a violation of the round trip (the property is a total statement about "
+    "in-domain objects)",
     "schematic type variables are generated in types and TyInsts only; terms contain type variables 'a, 'b but no ?'a",
-    "the fresh-process text is produced by a forked child of a python process that has only imported holpy and loaded "
-    "the theory (it has never printed or parsed a term outside theory loading)",
-    "the thorough tier's text-first atheris campaign of DESIGN.md is replaced by deeper generated terms (see report)",
+    "the fresh-process text is produced by a forked child of a python process that has only imported holpy (and the "
+    "modules the printer imports lazily) and loaded the theory; it has never printed or parsed a term itself",
+    "a component term of a sequent / instantiation / proof item that already fails on its own is reported under the TERM "
+    "signature, and the composite comparison is skipped for that case",
+    "signatures of known root causes are assigned by shape predicates on the smallest failing subterm (root_cause()); "
+    "a new defect whose smallest failing subterm has one of those shapes would be counted under the old signature",
+    "the thorough tier's text-first atheris campaign of DESIGN.md is replaced by the library statements and deeper "
+    "generated terms",
 ]
 SHRINK_BUDGET = 200
 SHRINK_SECONDS = 25
@@ -67,9 +76,8 @@ SHRINK_SECONDS = 25
 THEORIES = ['logic', 'nat', 'int', 'real', 'set', 'list', 'function', 'string', 'interval_arith']
 # theories whose signature contains the first one's (used for "same term under another theory")
 SUPERSETS = {
-    'logic': ['nat', 'set', 'real', 'string'], 'nat': ['int', 'real', 'list', 'string'], 'int': ['real', 'interval_arith'],
-    'real': ['interval_arith'], 'set': ['list', 'real', 'string'], 'list': ['string'],
-    'function': ['set', 'real'], 'string': [], 'interval_arith': [],
+    'logic': ['nat'], 'nat': ['int'], 'int': ['real'], 'real': ['interval_arith'], 'set': ['list'], 'list': ['string'],
+    'function': ['set'], 'string': [], 'interval_arith': [],
 }
 ATOMS = {
     'logic': [BOOL, A, B],
@@ -221,13 +229,7 @@ def validate(thname, j, want_type=None):
 
 
 # ======================================================================================== oracle
-def context_of(js):
-    """vars / svars dictionaries (name -> holpy Type) of the free variables of the JSON terms."""
-    vs, svs = {}, {}
-    for j in js:
-        for tag, nm, T in L.free_atoms(j):
-            (vs if tag == 'v' else svs)[nm] = codec.type_dec(T)
-    return vs, svs
+context_of = L.context_of
 
 
 def compare_terms(t2, j):
@@ -583,7 +585,7 @@ def get_worker(thname):
     if _worker_starts.get(thname, 0) >= MAX_WORKER_STARTS:
         raise L.WorkerFailed('worker for %s could not be (re)started' % thname)
     _worker_starts[thname] = _worker_starts.get(thname, 0) + 1
-    w = L.Worker(thname)
+    w = L.Worker(thname, SUPERSETS.get(thname, []))
     _workers[thname] = w
     return w
 
@@ -606,72 +608,8 @@ def _close_workers():
 
 
 def run_prefix(case, t_obj, H):
-    from kernel.term import Eq, Lambda, Var
-    from kernel.thm import Thm
-    from logic import context
-    from syntax import parser
-    main_th = case['theory']
-    ran = []
-    for op in case.get('prefix') or []:
-        if not isinstance(op, dict):
-            raise CaseInvalid('prefix op')
-        kind = op.get('op')
-        uni = bool(op.get('unicode', False))
-        hl = bool(op.get('highlight', False))
-        ll = op.get('line_length')
-        if not (ll is None or (isinstance(ll, int) and 5 <= ll <= 200)):
-            raise CaseInvalid('prefix line_length')
-        try:
-            if kind == 'print':
-                th = op.get('theory', main_th)
-                if th not in _S:
-                    raise CaseInvalid('prefix theory')
-                try:
-                    validate(th, op['t'])
-                except CaseInvalid:
-                    H.note('prefix-op-out-of-domain-skipped')
-                    continue
-                use_theory(th)
-                pt = codec.term_dec(op['t'])
-                text, lines = L.do_print('term', pt, uni, hl, ll)
-                vs, svs = context_of([op['t']])
-                with context.fresh_context(vars=vs, svars=svs), _quiet():
-                    parser.parse_term(text)
-                ran.append('print' + (':other-theory' if th != main_th else ''))
-            elif kind == 'share':
-                use_theory(main_th)
-                how = op.get('how')
-                if how == 'eq':
-                    L.do_print('term', Eq(t_obj, t_obj), uni, hl, ll)
-                elif how == 'sub':
-                    stack = [t_obj]
-                    while stack:
-                        s = stack.pop()
-                        if s.is_comb():
-                            stack.extend([s.arg, s.fun])
-                            if not s.arg.is_open():
-                                L.do_print('term', s.arg, uni, hl, ll)
-                elif how == 'lam':
-                    fv = t_obj.get_vars()
-                    if fv:
-                        L.do_print('term', Lambda(fv[0], t_obj), uni, hl, ll)
-                elif how == 'thm':
-                    from kernel.type import BoolType
-                    if t_obj.get_type() == BoolType:
-                        L.do_print('thm', Thm(t_obj, t_obj), uni, hl, None)
-                else:
-                    raise CaseInvalid('share how')
-                ran.append('share:' + str(how))
-            else:
-                raise CaseInvalid('prefix op kind')
-        except CaseInvalid:
-            raise
-        except (Timeout, RecursionError):
-            raise
-        except Exception:
-            H.note('prefix-op-raised')
-    use_theory(main_th)
-    return ran
+    thys = {k: v['thy'] for k, v in _S.items()}
+    return L.run_prefix_ops(case.get('prefix'), case['theory'], t_obj, thys, check=validate, note=H.note)
 
 
 def check_term(case, H):
@@ -701,64 +639,67 @@ def check_term(case, H):
         feat = None
         if status == 'settings-not-honoured':
             feat = 'unicode=%s%s' % (uni, ':after-history' if ran else '')
-        elif ran:
-            try:
-                alone = get_worker(thname).ask({'t': j, 'unicode': uni, 'highlight': hl, 'line_length': ll})
-            except (Timeout, RecursionError):
-                raise
-            except Exception:
-                alone = {}
-            if 'text' in alone and alone['text'] != r.get('text'):
-                feat = 'after-history'
         if feat is None:
             feat = term_feature(thname, j, uni, hl, ll, status)
+            if feat == 'only-in-context' and ran:
+                feat = 'after-history'
         H.violation(term_signature(status, r, feat), case, r['detail'])
         kl.append('!term:' + status)
     suspicious = bool(ran) and status == 'ok' and names_look_foreign(j, r.get('parsed_binders'))
     if suspicious:
         kl.append('hist:screen-flags-foreign-bound-names')
-    if (case.get('fresh') or suspicious) and r.get('text') is not None:
-        req = {'t': j, 'unicode': uni, 'highlight': hl, 'line_length': ll}
+    if (case.get('fresh') or suspicious) and r.get('text') is not None and case.get('prefix'):
+        # The verdict on history dependence compares TWO never-used processes: one runs the prefix and then prints the
+        # term, the other prints the term only.  (Reproducible whatever this process printed before.)
+        base = {'t': j, 'unicode': uni, 'highlight': hl, 'line_length': ll}
+        reqs = [dict(base, prefix=case.get('prefix')), base]
         deferred = getattr(H, 'c07_deferred', None)
         if deferred is not None:
-            # exploration: the fresh-process prints of a whole shard are requested together (they run concurrently);
-            # screen hits beyond a small budget are only counted
+            # exploration: the requests of a whole shard are sent together (the children run concurrently); screen hits
+            # beyond a small budget are only counted
             nscreen = sum(1 for d in deferred if d[4])
             if case.get('fresh') or nscreen < MAX_SCREEN_CONFIRMATIONS:
-                deferred.append((case, req, r['text'], status, not case.get('fresh')))
+                deferred.append((case, reqs, r['text'], status, not case.get('fresh')))
                 kl.append('hist:compared-with-fresh-process')
             else:
                 H.note('hist-screen-hit-not-sent-to-fresh-process')
         else:
             try:
-                ans = get_worker(thname).ask(req)
+                answers = get_worker(thname).ask_many(reqs)
             except (Timeout, RecursionError):
                 raise
             except Exception as e:
                 H.inconc('fresh-worker-failed')
-                ans = None
-            if ans is not None:
+                answers = None
+            if answers is not None:
                 kl.append('hist:compared-with-fresh-process')
-                if compare_with_fresh(case, r['text'], status, ans, H):
+                if compare_with_fresh(case, r['text'], status, answers[0], answers[1], H):
                     kl.append('!hist:text-differs')
     key = 'term|%s|%s' % (thname, r.get('text') if r.get('text') is not None else harness.canon(j))
     H.case(case, nontrivial, kl, key=key)
     return r
 
 
-def compare_with_fresh(case, text, status, ans, H):
-    """Record a violation when the in-process text (after the prefix) is not what a fresh process prints."""
-    if 'text' not in ans:
-        if 'no answer' in str(ans.get('err')):
+def compare_with_fresh(case, text, status, polluted, alone, H):
+    """polluted / alone: answers of two never-used processes (prefix then term / term only); text: what THIS process
+    printed after running the prefix itself."""
+    for ans in (polluted, alone):
+        if 'text' not in ans and 'no answer' in str(ans.get('err')):
             H.inconc('fresh-child-killed-or-timed-out')
             return False
-        if status == 'ok':
-            H.violation('term:history:fresh-process-fails-to-print', case, 'in-process text %r; fresh process: %s' % (text, ans.get('err')))
+    if 'text' not in alone:
+        if status == 'ok' and 'text' in polluted:
+            H.violation('term:history:prints-only-after-history', case, 'alone: %s; after the prefix: %r' % (alone.get('err'), polluted['text']))
             return True
         return False
-    if ans['text'] != text:
-        H.violation('term:history-dependent-text:%s' % history_feature(case, text, ans['text']), case,
-                    'after the prefix the term prints as %r; a fresh process prints %r' % (text, ans['text']))
+    if 'text' not in polluted:
+        H.violation('term:history:print-fails-after-history', case, 'alone: %r; after the prefix: %s' % (alone['text'], polluted.get('err')))
+        return True
+    if polluted['text'] != text:
+        H.note('in-process text differs from the fresh process that ran the same prefix')
+    if polluted['text'] != alone['text']:
+        H.violation('term:history-dependent-text:%s' % history_feature(case, polluted['text'], alone['text']), case,
+                    'a fresh process that first runs the prefix prints %r; a fresh process prints %r' % (polluted['text'], alone['text']))
         return True
     return False
 
@@ -1522,7 +1463,11 @@ def hist_strategy(thname):
             puni = uni if draw(st.integers(0, 3)) > 0 else (not uni)
             if kind == 'alpha' and nb:
                 names = draw(st.lists(st.sampled_from(S['names']), min_size=1, max_size=4))
-                prefix.append({'op': 'print', 't': L.rename_binders(j, names), 'theory': thname, 'unicode': puni})
+                # rename all binders, or only some of them (e.g. only the nested ones)
+                mask = draw(st.sampled_from([None, [False, True], [False, True, True, True], [True, False]]))
+                if mask is None and draw(st.booleans()):
+                    mask = draw(st.lists(st.booleans(), min_size=max(nb, 1), max_size=max(nb, 1)))
+                prefix.append({'op': 'print', 't': L.rename_binders(j, names, mask), 'theory': thname, 'unicode': puni})
             elif kind == 'theory' and SUPERSETS.get(thname):
                 prefix.append({'op': 'print', 't': j, 'theory': draw(st.sampled_from(SUPERSETS[thname])), 'unicode': puni})
             elif kind == 'settings':
@@ -1568,7 +1513,7 @@ def binder_rich(thname):
 # ======================================================================================== shards
 def shards(tier):
     quick = tier == 'quick'
-    mul = 1 if quick else 12
+    mul = 1 if quick else 10
     out = []
     # (a) enumerated ladder pairs
     parts = 12 if quick else 24
@@ -1595,7 +1540,7 @@ def shards(tier):
         out.append({'kind': 'library', 'theory': th})
     # (d) history
     for th in THEORIES:
-        out.append({'kind': 'hist', 'theory': th, 'n': (70 if quick else 1500), 'i': 0})
+        out.append({'kind': 'hist', 'theory': th, 'n': (70 if quick else 800), 'i': 0})
     return out
 
 
@@ -1694,14 +1639,14 @@ def run_shard(desc, seed, tier, H):
             pending, H.c07_deferred = H.c07_deferred, None
             if pending:
                 try:
-                    answers = get_worker(th).ask_many([p[1] for p in pending])
+                    answers = get_worker(th).ask_many([q for p in pending for q in p[1]])
                 except Exception:
                     answers = None
                     for _ in pending:
                         H.inconc('fresh-worker-failed')
                 if answers is not None:
-                    for (case, req, text, status, _), ans in zip(pending, answers):
-                        if compare_with_fresh(case, text, status, ans, H):
+                    for i, (case, reqs, text, status, _) in enumerate(pending):
+                        if compare_with_fresh(case, text, status, answers[2 * i], answers[2 * i + 1], H):
                             H.classes['!hist:text-differs'] += 1
         finally:
             H.c07_deferred = None
